@@ -8,7 +8,8 @@ if [ -n "$(git status --porcelain)" ]; then echo "/repo not clean"; exit 2; fi
 git apply "$SD/patch.diff" || { echo "patch does not apply"; exit 2; }
 export VERIF_DIR="$(mktemp -d)"; cp /verif/known_findings.txt "$VERIF_DIR/" 2>/dev/null
 export GOFLAGS=-mod=mod GOPROXY=off GOSUMDB=off GOTOOLCHAIN=local
-/verif/bin/lowcheck -prop "$PROPS" -noselftest 2>&1 | grep -E "^(VIOLATED|UNDECIDED)" | cut -c1-260
-echo "exit-summary: $(/verif/bin/lowcheck -prop "$PROPS" -noselftest 2>&1 | grep -E 'quick:' | grep -v ' 0 violated, 0 undecided' | awk '{print $1}' | tr '\n' ' ')"
+OUT="$(/verif/bin/lowcheck -prop "$PROPS" -noselftest 2>&1)"
+echo "$OUT" | grep -E "^(VIOLATED|UNDECIDED)" | cut -c1-260
+echo "exit-summary: $(echo "$OUT" | grep -E 'quick:' | grep -v ' 0 violated, 0 undecided' | awk '{print $1}' | tr '\n' ' ')"
 rm -rf "$VERIF_DIR"
 git checkout -- . ; git clean -fdq
